@@ -265,12 +265,21 @@ fn vec_check(ctx: &mut Ctx) {
         let n = ctx.pick(q / 25, t / 25);
         ctx.random("large-vectors", "vec", &|| vec_gen::case(&big), &run, n);
     }
-    // thorough only: long histories (up to 60 operations, up to 5 initial subscribers)
-    if ctx.tier == crate::ctx::Tier::Thorough {
-        if let Some((_, cfg, _, t)) = vec_phases(prop).into_iter().next() {
-            let long = GenCfg { max_ops: 60, initial_subs: (cfg.initial_subs.0, cfg.initial_subs.1.max(4)), max_initial: 16, ..cfg };
-            ctx.random("long-histories", "vec", &|| vec_gen::case(&long), &run, t / 10);
-        }
+    // long histories (up to 60 operations, large capacities, lazy subscribers): long runs of
+    // queued updates between two polls
+    if let Some((_, cfg, q, t)) = vec_phases(prop).into_iter().next() {
+        let long = GenCfg {
+            max_ops: 60,
+            initial_subs: (cfg.initial_subs.0.max(1), cfg.initial_subs.1.max(2)),
+            max_initial: 16,
+            capacities: vec![16, 64, 64, 128],
+            policies: vec![Policy::Lazy, Policy::Lazy, Policy::Eager],
+            w_poll: 1,
+            w_vop: cfg.w_vop.max(10) * 2,
+            ..cfg
+        };
+        let n = ctx.pick(q / 15, t / 8);
+        ctx.random("long-histories", "vec", &|| vec_gen::case(&long), &run, n);
     }
     let _ = ALL_KINDS;
     if prop == Prop::C20 {
